@@ -222,24 +222,45 @@ def r173(ctx, rep, mod):
         if fn is None:
             raise AnalysisError('anchor vanished: petl.io.db:%s' % name)
         pm = parent_map(fn.node)
-        loads = [c for c in _calls(fn.node) if norm(c.func) == '_todb']
-        if len(loads) != 1:
-            rep.violated('R17.3', fn, '_todb(...)', 'expected exactly one call of _todb', fn.node)
+        loads = [c for c in _calls(fn.node) if norm(c.func) == '_todb' and any(c is x for x in own_nodes(fn.node))]
+        if not loads:
+            rep.violated('R17.3', fn, '_todb(...)', 'no call of _todb', fn.node)
             continue
+        # connections petl opens itself: locals bound to <module>.connect(...)
+        opened = set()
+        for x in own_nodes(fn.node):
+            if isinstance(x, ast.Assign) and isinstance(x.value, ast.Call) and \
+                    (norm(x.value.func).endswith('.connect') or norm(x.value.func) == 'connect'):
+                for t in x.targets:
+                    if isinstance(t, ast.Name):
+                        opened.add(t.id)
+        if not opened:
+            rep.violated('R17.3', fn, 'connect(...)', 'a file name is no longer turned into a connection', fn.node)
+        n_owned = 0
+        for call in loads:
+            dbo = call.args[1] if len(call.args) > 1 else None
+            for k in call.keywords:
+                if k.arg == 'dbo':
+                    dbo = k.value
+            if not (isinstance(dbo, ast.Name) and dbo.id in opened):
+                continue        # the application's own handle: the application closes it
+            n_owned += 1
+            closed = False
+            for p, c in enclosing(pm, call, stop=fn.node):
+                if isinstance(p, ast.Try) and any(c is b for b in p.body):
+                    for s in p.finalbody:
+                        for x in ast.walk(s):
+                            if isinstance(x, ast.Call) and norm(x.func) == '%s.close' % dbo.id:
+                                closed = True
+            if closed:
+                rep.held('R17.3', fn, 'finally: close()', 'the connection petl opened is closed on every exit', call)
+            else:
+                rep.violated('R17.3', fn, 'finally: close()',
+                             'the connection opened from a file name is not closed in a finally enclosing the load: after a '
+                             'failure it stays open with the DELETE/INSERTs pending', call)
+        if opened and not n_owned:
+            rep.violated('R17.3', fn, '_todb(<opened connection>)', 'the connection petl opens is never handed to _todb', fn.node)
         call = loads[0]
-        closed = False
-        for p, c in enclosing(pm, call, stop=fn.node):
-            if isinstance(p, ast.Try) and any(c is b for b in p.body):
-                for s in p.finalbody:
-                    for x in ast.walk(s):
-                        if isinstance(x, ast.Call) and isinstance(x.func, ast.Attribute) and x.func.attr == 'close':
-                            closed = True
-        if closed:
-            rep.held('R17.3', fn, 'finally: close()', 'the connection petl opened is closed on every exit', call)
-        else:
-            rep.violated('R17.3', fn, 'finally: close()',
-                         'the connection opened from a file name is not closed in a finally enclosing the load: after a '
-                         'failure it stays open with the DELETE/INSERTs pending', call)
         commits = [c for c in _calls(fn.node) if _is_commit(c)]
         for c in commits:
             rep.violated('R17.3', fn, norm(c), '%s must leave committing to _todb (after the insert)' % name, c)
@@ -254,13 +275,14 @@ def r173(ctx, rep, mod):
                 else:
                     rep.held('R17.3', fn, norm(c)[:70], 'default transaction mode', c)
         # R17.4 part: truncate literal
-        kw = [k for k in call.keywords if k.arg == 'truncate']
-        if kw and isinstance(kw[0].value, ast.Constant) and kw[0].value.value is trunc:
-            rep.held('R17.4', fn, '_todb(..., truncate=%s)' % trunc, '', call)
-        else:
-            rep.violated('R17.4', fn, '_todb(..., truncate=%s)' % trunc,
-                         '%s must call _todb with truncate=%s' % (name, trunc), call)
-        _forward(rep, fn, call, ('commit',), 'R17.4')
+        for call in loads:
+            kw = [k for k in call.keywords if k.arg == 'truncate']
+            if kw and isinstance(kw[0].value, ast.Constant) and kw[0].value.value is trunc:
+                rep.held('R17.4', fn, '_todb(..., truncate=%s)' % trunc, '', call)
+            else:
+                rep.violated('R17.4', fn, '_todb(..., truncate=%s)' % trunc,
+                             '%s must call _todb with truncate=%s' % (name, trunc), call)
+            _forward(rep, fn, call, ('commit',), 'R17.4')
 
 
 def r174(ctx, rep, mod):
@@ -268,10 +290,14 @@ def r174(ctx, rep, mod):
     if fn is None:
         raise AnalysisError('anchor vanished: petl.io.db:_todb')
     n = 0
+    aliases = _impl_aliases(fn)
     for c in _calls(fn.node):
         nm = norm(c.func)
         if nm.startswith('_todb_'):
             n += 1
+            _forward(rep, fn, c, ('commit', 'truncate'), 'R17.4')
+        elif nm in aliases:
+            n += len(set(aliases[nm]))
             _forward(rep, fn, c, ('commit', 'truncate'), 'R17.4')
     if n < 6:
         raise AnalysisError('anchor vanished: _todb dispatches to only %d implementations' % n)
@@ -280,11 +306,27 @@ def r174(ctx, rep, mod):
         rep.violated('R17.1', fn, norm(c), 'the dispatcher must not commit', c)
 
 
+def _impl_aliases(fn):
+    """locals that only ever hold one of the _todb_* implementations (`load = _todb_dbapi_cursor` ... `load(...)`)"""
+    vals = {}
+    for x in own_nodes(fn.node):
+        if isinstance(x, ast.Assign) and len(x.targets) == 1 and isinstance(x.targets[0], ast.Name):
+            vals.setdefault(x.targets[0].id, []).append(x.value)
+    return {k: [norm(v) for v in vs] for k, vs in vals.items()
+            if vs and all(isinstance(v, ast.Name) and v.id.startswith('_todb_') for v in vs)}
+
+
+def _is_dispatch(c, aliases):
+    f = norm(c.func)
+    return f.startswith('_todb_') or f in aliases
+
+
 class _Dispatched(BaseDomain):
     """must-fact 'D': one of the _todb_* implementations has been called"""
 
-    def __init__(self):
+    def __init__(self, aliases=None):
         self.exits = []      # (node or None, has D)
+        self.aliases = aliases or {}
 
     def entry_state(self):
         return frozenset()
@@ -302,12 +344,12 @@ class _Dispatched(BaseDomain):
         return {ANY} if any(True for _ in _calls(e)) else set()
 
     def exec_simple(self, s, st):
-        if any(norm(c.func).startswith('_todb_') for c in _calls(s)):
+        if any(_is_dispatch(c, self.aliases) for c in _calls(s)):
             return frozenset(st | {'D'})
         return st
 
     def exec_return(self, s, st):
-        d = 'D' in st or any(norm(c.func).startswith('_todb_') for c in _calls(s))
+        d = 'D' in st or any(_is_dispatch(c, self.aliases) for c in _calls(s))
         self.exits.append((s, d))
         return st
 
@@ -316,7 +358,7 @@ def r175(ctx, rep, mod):
     fn = mod.functions.get('_todb')
     if fn is None:
         raise AnalysisError('anchor vanished: petl.io.db:_todb')
-    dom = _Dispatched()
+    dom = _Dispatched(_impl_aliases(fn))
     it = Interp(fn.node, dom)
     end_state = it.block(fn.node.body, dom.entry_state())     # state when falling off the end (None: unreachable)
     bad = [s for s, d in dom.exits if not d]
